@@ -82,7 +82,7 @@ pub fn reserve_slot(setup: OracleSetup, data: &[u8]) -> Option<u64> {
     match setup {
         OracleSetup::KaminoPythPush | OracleSetup::KaminoSwitchboardPull => venue::read_reserve(data).map(|r| r.slot),
         OracleSetup::SolendPythPull | OracleSetup::SolendSwitchboardPull => venue::read_solend_reserve(data).map(|r| r.last_update_slot),
-        _ => None, // Drift staleness is by the second, judged by the reference price itself
+        _ => None,
     }
 }
 
@@ -109,7 +109,16 @@ impl Mon {
                 match p.oracles.get(1).and_then(|o| reserve_slot(p.bank.config.oracle_setup, o.data)) {
                     Some(s) if s < slot => stale += 1,
                     Some(_) => fresh += 1,
-                    None => {}
+                    None => {
+                        // Drift spot markets go stale by the second (interest not brought up to date now)
+                        if matches!(p.bank.config.oracle_setup, OracleSetup::DriftPythPull | OracleSetup::DriftSwitchboardPull) {
+                            match p.oracles.get(1).and_then(|o| venue::read_spot_market(o.data)) {
+                                Some(mk) if (mk.last_interest_ts as i64) < info.now => stale += 1,
+                                Some(_) => fresh += 1,
+                                None => {}
+                            }
+                        }
+                    }
                 }
             }
         }
@@ -209,6 +218,28 @@ impl Mon {
                 self.r.count("C20.venue_withdrawals_paid");
             }
             self.r.sample_kind(name, json!({"account": ak.to_string(), "received": show(&recv), "collateral_removed": show(&d_obl), "position_decrease": show(&d_pos), "rate": show(&rate)}));
+        }
+        // the unbiased price the instruction cached for the bank is the oracle price times the
+        // venue's exchange rate - never more than the exact product
+        if !dep && bq.cache.last_oracle_price_timestamp == info.now && (bp.cache.last_oracle_price_timestamp != info.now || w(&bp.cache.last_oracle_price) != w(&bq.cache.last_oracle_price)) {
+            let mut ors = vec![];
+            for k in crate::mon_risk::oracle_keys_pub(bq) {
+                let snap = match v.ev.post_of(&k) {
+                    Some(p) if p.is_writable => Some(p),
+                    _ => v.ev.pre_of(&k),
+                };
+                if let Some(sn) = snap {
+                    ors.push(crate::refm::OracleIn { key: k, owner: sn.owner, data: &sn.data[..] });
+                }
+            }
+            if let Ok(px) = crate::refm::ref_price(bq, &ors, info.now) {
+                let cached = w(&bq.cache.last_oracle_price);
+                self.r.count("C20.cached_venue_prices_compared");
+                let bound = &px.spot + &px.e * ri(4) + ulp() * ri(16);
+                if cached > bound {
+                    self.r.violate("C20", &format!("C20/{}/cached-price-exceeds-oracle-price-times-exact-exchange-rate", name), format!("bank {}: cached unbiased price {} but oracle price x exact venue rate is {} (+-{})", bk, show(&cached), show(&px.spot), show(&px.e)));
+                }
+            }
         }
         // the bank's books never claim more collateral than the venue holds for it
         let booked = w(&bq.total_asset_shares) * &asv;
